@@ -5,6 +5,8 @@ package mailbox
 import (
 	"bytes"
 	"encoding/binary"
+
+	"github.com/btcsuite/btcd/btcec/v2"
 )
 
 // VH_C07_HostileActTwo: the length fields of act two are authenticated, but
@@ -65,4 +67,33 @@ func VH_C07_HostileActTwo() {
 		vAssert(err == nil, "an honest act two was rejected")
 		vAssert(vBytesEq(cli.receivedPayload, auth), "honest act two: payload differs")
 	}
+}
+
+// VH_C07_HostileActOne: act one of the passphrase handshake carries the
+// initiator's ephemeral key masked with N*pw. Whoever knows the pairing
+// phrase can send the one value that cancels the mask - N*pw itself, so that
+// the unmasked "key" is the point at infinity. The byte string is composed
+// with the same curve primitives ekeMask uses and read by the responder's
+// real readMsgPattern (any version byte, any MAC): it is rejected with an
+// error, nothing panics.
+func VH_C07_HostileActOne() {
+	ver := byte(vIntRange("ver", 0, 2))
+	cfg := &vHSConfig{cMin: 0, cMax: 2, sMin: 0, sMax: 2}
+	cfg.cliPW, cfg.srvPW = vSamePW()
+	cfg.auth = vBytes("auth", 3)
+	hs, ok := vSetup(cfg)
+	vAssert(ok, "machine construction failed")
+	srv := hs.srv.m
+	s := new(btcec.ModNScalar)
+	s.SetByteSlice(srv.passphraseEntropy)
+	var nJ, pJ btcec.JacobianPoint
+	N.AsJacobian(&nJ)
+	btcec.ScalarMultNonConst(s, &nJ, &pJ)
+	pJ.ToAffine()
+	pt := btcec.NewPublicKey(&pJ.X, &pJ.Y)
+	act1 := append([]byte{ver}, pt.SerializeCompressed()...)
+	act1 = append(act1, vBytes("mac", 16)...)
+	err := srv.readMsgPattern(bytes.NewReader(act1), srv.pattern.Pattern[0])
+	vReach("hostile-act1")
+	vAssert(err != nil, "an act one whose masked key cancels the mask was accepted")
 }
